@@ -41,15 +41,17 @@ for _f in sorted(_g.glob(_o.path.join(_o.path.dirname(_o.path.abspath(__file__))
 # ---- GoLite: decision functions regenerated from the Go source on every run (harness/translators/golite) and proved
 # equal to the model's predicates for all arguments (coq/Check/GoLite*.v over coq/gen/GoLiteFuns.v).
 _GL_FILES = {"validate": "Check/GoLiteValidate.v", "submit": "Check/GoLiteSubmit.v", "throttle": "Check/GoLiteThrottle.v",
-             "lazy": "Check/GoLiteLazy.v", "da": "Check/GoLiteDA.v", "admit": "Check/GoLiteAdmit.v", "includer": "Check/GoLiteIncluder.v", "queue": "Check/GoLiteQueue.v", "loop-filter": "Check/GoLiteLoopFilter.v", "loop-waiting": "Check/GoLiteLoopWaiting.v", "loop-chunks": "Check/GoLiteLoopChunks.v", "loop-pending": "Check/GoLiteLoopPending.v"}
+             "lazy": "Check/GoLiteLazy.v", "da": "Check/GoLiteDA.v", "admit": "Check/GoLiteAdmit.v", "includer": "Check/GoLiteIncluder.v", "queue": "Check/GoLiteQueue.v", "producer": "Check/GoLiteProducer.v", "loop-filter": "Check/GoLiteLoopFilter.v", "loop-waiting": "Check/GoLiteLoopWaiting.v", "loop-chunks": "Check/GoLiteLoopChunks.v", "loop-pending": "Check/GoLiteLoopPending.v"}
 _GOLITE = {
-    "C01": [("validate", "execValidate = Types.validate, SignedHeader.ValidateBasic = Types.validate_basic, types.Validate = Types.validate_pair")],
+    "C01": [("producer", "Manager.retrieveBatch with its effects (the whole batch passed on, ErrNoBatch iff it has no transactions, ONE metadata write of the cursor, the in-memory cursor moved also when that write fails; nothing on an error / no response / no batch) = the SErr / SNil / SBatch cases of Producer.produce, for all answers of the sequencing layer"),
+            ("validate", "execValidate = Types.validate, SignedHeader.ValidateBasic = Types.validate_basic, types.Validate = Types.validate_pair")],
     "C02": [("validate", "execValidate = Types.validate (the validation the syncer applies to every received block)"),
             ("admit", "handlePotentialHeader / handlePotentialData (block/retriever.go) with their effects — result, DA-included mark, includer signal, event sent to sync — = Admission.da_admit, for all genesis data, seen-sets, items and DA heights (blob decoding by class is assumed: C12)")],
     "C03": [("loop-chunks", "the chunked Get loop of types.RetrieveWithHelpers, translated shallowly into a Gallina Fixpoint, = Get over the chunks of Admission.chunks (100 ids each, last one shorter, none empty, in order, stop at the first error), by induction for ALL id lists"),
             ("admit", "handlePotentialHeader / handlePotentialData (block/retriever.go) with their effects — result, DA-included mark, includer signal, event sent to sync — = Admission.da_admit, for all genesis data, seen-sets, items and DA heights (blob decoding by class is assumed: C12)"),
             ("validate", "isUsingExpectedSingleSequencer = Admission.is_expected_sequencer, isValidSignedData = Admission.is_valid_signed_data, SignedHeader.ValidateBasic = Types.validate_basic, Header.ValidateBasic (what go-header calls) = the non-empty proposer address test")],
-    "C04": [("validate", "execValidate = Types.validate")],
+    "C04": [("producer", "Manager.retrieveBatch with its effects (the whole batch passed on, ErrNoBatch iff it has no transactions, ONE metadata write of the cursor, the in-memory cursor moved also when that write fails; nothing on an error / no response / no batch) = the SErr / SNil / SBatch cases of Producer.produce, for all answers of the sequencing layer"),
+            ("validate", "execValidate = Types.validate")],
     "C05": [("validate", "execValidate = Types.validate")],
     "C06": [("loop-pending", "the loop of pendingBase.getPending, translated shallowly, = Throttle.get_pending (the heights lastSubmitted+1 .. height, each fetched once, in increasing order, stop at the first failing fetch), by induction for ALL watermarks and heights"),
             ("submit", "Manager.exponentialBackoff = Submitter.exp_backoff, pendingBase.isEmpty = (store height =? watermark)"),
@@ -62,7 +64,8 @@ _GOLITE = {
             ("admit", "handlePotentialHeader / handlePotentialData (block/retriever.go) with their effects — result, DA-included mark, includer signal, event sent to sync — = Admission.da_admit, for all genesis data, seen-sets, items and DA heights (blob decoding by class is assumed: C12)"),
             ("da", "types.RetrieveWithHelpers = Proxy.retrieve_helper on every path before the chunked Get loop (GetIDs error classes by message text, nil / empty id list)")],
     "C10": [("queue", "sequencers/single/queue.go AddBatch / Next / batchKey with their datastore writes (Put before the append, Delete of the head record) and their effect on the queue object = Queue.step_mem, for all queue contents, sequence numbers, bounds and batches (Load, a loop over a datastore query, is not translated)")],
-    "C11": [("queue", "sequencers/single/queue.go AddBatch / Next / batchKey with their datastore writes (Put before the append, Delete of the head record) and their effect on the queue object = Queue.step_mem, for all queue contents, sequence numbers, bounds and batches (Load, a loop over a datastore query, is not translated)")],
+    "C11": [("producer", "Manager.retrieveBatch with its effects (the whole batch passed on, ErrNoBatch iff it has no transactions, ONE metadata write of the cursor, the in-memory cursor moved also when that write fails; nothing on an error / no response / no batch) = the SErr / SNil / SBatch cases of Producer.produce, for all answers of the sequencing layer"),
+            ("queue", "sequencers/single/queue.go AddBatch / Next / batchKey with their datastore writes (Put before the append, Delete of the head record) and their effect on the queue object = Queue.step_mem, for all queue contents, sequence numbers, bounds and batches (Load, a loop over a datastore query, is not translated)")],
     "C16": [("loop-chunks", "the chunked Get loop of types.RetrieveWithHelpers, translated shallowly into a Gallina Fixpoint, = Get over the chunks of Admission.chunks (100 ids each, last one shorter, none empty, in order, stop at the first error), by induction for ALL id lists"),
             ("loop-filter", "the size filter loop of da/jsonrpc client SubmitWithOptions, translated shallowly, = Proxy.filter_loop (what is submitted is the model's longest fitting prefix; the oversize flag), by induction for ALL blob lists"),
             ("da", "types.SubmitWithHelpers = Proxy.submit_helper on every path; types.RetrieveWithHelpers = Proxy.retrieve_helper on every path before the chunked Get loop")],
